@@ -342,6 +342,18 @@ theorem exec_makeRequest_site (cfg : Cfg) (st : St) (b : Nat) (owner : ReqOwner)
   | true => simp only [Bool.not_true, if_true]; exact NInv.issueResolved h _ rfl rfl
   | false => simp only [Bool.not_false, Bool.false_eq_true, if_false]; exact NInv.issue h b st.now _ owner _
 
+theorem issueTo_inv_err {cfg : Cfg} {st : St} {n : Int} {o : ReqOwner} {e : Bool} {w : ReqWhat} {m : Option Rat} {rj : Bool}
+    {er : IssueErr} (he : issueTo cfg st n o e w m rj = .error er) (h : SInv st) : SInv er.st := by
+  rcases issueTo_err he with ⟨h1, _⟩ | ⟨b, hg⟩
+  · rw [h1]; exact h
+  · exact SInv_of_core h (core_getBrokerClient hg)
+
+theorem issueTo_inv_ok {cfg : Cfg} {st : St} {n : Int} {o : ReqOwner} {e : Bool} {w : ReqWhat} {m : Option Rat} {rj : Bool}
+    {i : IssueOk} (hi : issueTo cfg st n o e w m rj = .ok i) (h : SInv st) : SInv i.st := by
+  obtain ⟨st1, b, obs1, hg, h1, _, _, _⟩ := issueTo_ok hi
+  rw [h1]
+  exact exec_makeRequest_site cfg _ _ _ _ _ _ (SInv_of_core h (core_getBrokerClient hg))
+
 theorem exec_unawareNext (cfg : Cfg) (st : St) (u : Nat) (nodes : List Int) (h : SInv st) :
     SInv (exec cfg st (.unawareNext u nodes)).1 := by
   simp only [exec]
@@ -352,10 +364,8 @@ theorem exec_unawareNext (cfg : Cfg) (st : St) (u : Nat) (nodes : List Int) (h :
       · exact h
       · rename_i hs; exact SInv_of_core h (core_shuffle hs)
     · split
-      · exact h
-      · rename_i hg
-        dsimp only
-        exact SInv_of_core (exec_makeRequest_site cfg _ _ _ _ _ _ (SInv_of_core h (core_getBrokerClient hg))) (core_setUnaware _ _ _)
+      · rename_i he; exact issueTo_inv_err he h
+      · rename_i he; exact SInv_of_core (issueTo_inv_ok he h) (core_setUnaware _ _ _)
 
 theorem exec_issueSlot (cfg : Cfg) (st : St) (s j : Nat) (h : SInv st) : SInv (exec cfg st (.issueSlot s j)).1 := by
   simp only [exec]
@@ -365,21 +375,19 @@ theorem exec_issueSlot (cfg : Cfg) (st : St) (s j : Nat) (h : SInv st) : SInv (e
     · split
       · exact h
       · split
-        · exact h
-        · rename_i hg
-          split
-          · exact SInv_of_core h (core_getBrokerClient hg)
-          · dsimp only
-            exact SInv_of_core (exec_makeRequest_site cfg _ _ _ _ _ _ (SInv_of_core h (core_getBrokerClient hg))) (core_setSend _ _ _)
+        · rename_i he; exact issueTo_inv_err he h
+        · rename_i he; exact SInv_of_core (issueTo_inv_ok he h) (core_setSend _ _ _)
     · exact h
 
 theorem exec_srtcGo (cfg : Cfg) (st : St) (r : Nat) (h : SInv st) : SInv (exec cfg st (.srtcGo r)).1 := by
   simp only [exec]
-  repeat' split
-  all_goals (try dsimp only)
-  all_goals (first
-    | exact h
-    | (rename_i hg; exact SInv_of_core (exec_makeRequest_site cfg _ _ _ _ _ _ (SInv_of_core h (core_getBrokerClient hg))) (core_setSrtc _ _ _)))
+  split
+  · exact h
+  · split
+    · exact h
+    · split
+      · rename_i he; exact issueTo_inv_err he h
+      · rename_i he; exact SInv_of_core (issueTo_inv_ok he h) (core_setSrtc _ _ _)
 
 theorem exec_bootResult (cfg : Cfg) (st : St) (j : Nat) (r : Res) (h : SInv st) : SInv (exec cfg st (.bootResult j r)).1 := by
   simp only [exec]
